@@ -106,6 +106,9 @@ func (f *frame) loopInvariants(b *ssa.BasicBlock, li *loopInfo, phis []*ssa.Phi)
 		for ord, l := range hdrs {
 			if l == li {
 				for _, cl := range ct.Loops[fmt.Sprintf("#%d", ord+1)] {
+					if !f.top && f.vc.P.usesAlways(cl, f.fn) {
+						continue // accumulators are only registered for the function under verification
+					}
 					pos := loopPos(li)
 					cl.loopVars = rangeLoopVars(li)
 					if err := f.vc.P.prepare(cl, f.fn, pos); err != nil {
@@ -125,6 +128,9 @@ func (f *frame) loopInvariants(b *ssa.BasicBlock, li *loopInfo, phis []*ssa.Phi)
 				}
 				for _, k := range keys {
 					for _, cl := range ct.Loops[k] {
+						if !f.top && f.vc.P.usesAlways(cl, f.fn) {
+							continue
+						}
 						pos := loopPos(li)
 						cl.loopVars = rangeLoopVars(li)
 						if err := f.vc.P.prepare(cl, f.fn, pos); err != nil {
@@ -347,7 +353,7 @@ func (f *frame) contractCall(callee *ssa.Function, ct *Contract, c *ssa.CallComm
 	g.st = delta
 	g.oldSt = pre
 	for _, cl := range ct.Ensures {
-		if strings.Contains(cl.Text, "always(") {
+		if vc.P.usesAlways(cl, callee) {
 			continue // accumulators belong to the function under verification; a callee's are not assumed here
 		}
 		if err := vc.P.prepare(cl, callee, contractPos(callee)); err != nil {
